@@ -53,4 +53,13 @@ def applyChild (md : Modes) : ChildOp → Modes
 /-- The modes after the child wrote `ops` to a freshly created terminal (`New()`: all nine false). -/
 def childModes (ops : List ChildOp) : Modes := ops.foldl applyChild {}
 
+/-- One parsed sequence of the child's output, as far as mode selection can depend on it: the label
+    (intermediates ++ final) and first sub-parameters of a CSI, the label of an ESC, or anything else
+    (print, C0, OSC, DCS, APC, a resize of the widget). -/
+inductive ChildSeq where
+  | csi (label : List Nat) (params : List Int)
+  | esc (label : List Nat)
+  | other
+deriving DecidableEq, Repr
+
 end VaxisModel.Model.TermInputModes
